@@ -503,6 +503,58 @@ def rule_mode_arith(ctx: Ctx, prog: Program) -> None:
                                   f"{f.qualname} tests `{ast.unparse(n)}` where `{ast.unparse(a)}` is a difference whose left operand is read from an unsigned "
                                   f"engine array ({', '.join(sorted(uparams))}): compiled code computes it in int64 (can be negative), interpreted code keeps the "
                                   "unsigned type (wraps to a large positive value) -- the two execution modes take different branches")
+    # the answer of a variable heuristic is an element of decision_domains: a 16-bit unsigned NumPy scalar when interpreted, an int64 when
+    # compiled.  A difference with it that can be negative wraps in one mode only; it must be computed under a test that orders the two operands
+    vh_names = {e.name for e in prog.registry("VAR_HEURISTIC_FCTS").entries if isinstance(e, FuncInfo)}
+    n_vh = 0
+    for f in prog.all_functions():
+        if not f.njit or f.module.endswith("__main__"):
+            continue
+        us = {n.targets[0].id for n in ast.walk(f.node) if isinstance(n, ast.Assign) and len(n.targets) == 1 and isinstance(n.targets[0], ast.Name)
+              and isinstance(n.value, ast.Call) and isinstance(n.value.func, ast.Name) and n.value.func.id in vh_names}
+        if not us:
+            continue
+        parents: Dict[int, ast.AST] = {}
+        for x in ast.walk(f.node):
+            for c in ast.iter_child_nodes(x):
+                parents[id(c)] = x
+        for n in ast.walk(f.node):
+            if not (isinstance(n, ast.BinOp) and isinstance(n.op, ast.Sub)):
+                continue
+            lu = isinstance(n.left, ast.Name) and n.left.id in us
+            ru = isinstance(n.right, ast.Name) and n.right.id in us
+            if lu == ru:
+                continue
+            u = n.left.id if lu else n.right.id
+            other = n.right if lu else n.left
+            other_names = {x.id for x in ast.walk(other) if isinstance(x, ast.Name)}
+            other_const = isinstance(other, ast.Constant)
+            n_vh += 1
+            guarded = False
+            cur: ast.AST = n
+            while id(cur) in parents and not guarded:
+                par = parents[id(cur)]
+                tests: List[ast.expr] = []
+                if isinstance(par, (ast.If, ast.While)) and any(cur is b_ for b_ in par.body):
+                    tests.append(par.test)
+                if isinstance(par, ast.BoolOp) and isinstance(par.op, ast.And):
+                    k_ = next((i for i, v_ in enumerate(par.values) if v_ is cur), 0)
+                    tests.extend(par.values[:k_])
+                if isinstance(par, ast.IfExp) and cur is par.body:
+                    tests.append(par.test)
+                for t_ in tests:
+                    for cmp_ in [x for x in ast.walk(t_) if isinstance(x, ast.Compare)]:
+                        nm = {x.id for x in ast.walk(cmp_) if isinstance(x, ast.Name)}
+                        if u in nm and (other_const or (other_names & nm)):
+                            guarded = True
+                cur = par
+            if guarded:
+                ctx.ok("R-MODE-ARITH", f"{f.qualname}: `{ast.unparse(n)}` is computed under a test that orders its operands", nontrivial=False)
+            else:
+                ctx.violation("R-MODE-ARITH", f.path, f.qualname, f"heuristic-answer-difference:{ast.unparse(n)[:40]}", f"{f.path}:{n.lineno}",
+                              f"{f.qualname} computes `{ast.unparse(n)}` where `{u}` is the answer of a variable heuristic (an element of decision_domains: a 16-bit "
+                              "unsigned NumPy scalar in interpreted mode, an int64 in compiled mode) outside any test that orders the two operands: where the "
+                              "difference is negative the interpreted engine wraps to a large positive value and takes another branch than the compiled one")
     # `~b` on a scalar truth value: Numba's boolean type complements logically (True -> False), the Python bool the interpreted engine sees is an
     # int (~True == -2, ~False == -1); used in arithmetic (a counter `+= ~flag`) or as a condition the two modes disagree
     n_inv = 0
